@@ -3,7 +3,15 @@
 From Coq Require Import ZArith List Bool Lia ZifyBool.
 From EN Require Import Lib.Bytes Conc.TlsBase Conc.TlsPump Conc.TlsEof Conc.IdealTls Gen.ParamsC09 Gen.ParamsC08 Proofs.Ideal_proofs.
 (* the proofs must hold whatever the regenerated flag says *)
-Opaque recheck_after_recv_lock.
+Opaque recheck_after_recv_lock send_lock_only_if_pending.
+Ltac flush_cases :=
+  unfold flush_pc in *;
+  repeat match goal with
+  | H : context [send_lock_only_if_pending && wbio_empty ?s] |- _ =>
+      let E := fresh "Esk" in destruct (send_lock_only_if_pending && wbio_empty s) eqn:E
+  | |- context [send_lock_only_if_pending && wbio_empty ?s] =>
+      let E := fresh "Esk" in destruct (send_lock_only_if_pending && wbio_empty s) eqn:E
+  end.
 Ltac go_recv H sn :=
   unfold go in H; destruct (recv_lock _) eqn:?L; [discriminate |];
   destruct (recheck_after_recv_lock && negb (Nat.eqb (feeds _) sn)).
@@ -59,7 +67,9 @@ Proof.
   destruct p as [ | k | k | sn | | r0]; try discriminate.
   - destruct (send_lock s); try discriminate.
     destruct k as [ | | v]; destruct (wbio s) as [| w0 w]; cbn in H; try (inversion H; subst; eauto; fail).
-  - fold (go m s (PRecvWait sn)) in H. go_recv H sn; [unfold pcall in H; destruct m; try destruct (deque s); inversion H | inversion H].
+  - fold (go m s (PRecvWait sn)) in H. go_recv H sn; [| inversion H].
+    unfold pcall in H. destruct m; try (inversion H; fail). destruct (deque s); try (inversion H; fail).
+    flush_cases; inversion H; eauto.
 Qed.
 
 Lemma settle_n_end_ssl : forall fuel m s p s' e a, settle_n fuel m s p = (s', PEnd (RSsl e), a) -> p = PEnd (RSsl e).
